@@ -1308,6 +1308,16 @@ pub fn gen_case(family: &str, seed: u64, idx: usize) -> Case {
                 short: idx % 2 == 1,
                 junk_members: idx % 3 == 1,
             };
+            if idx == 13 {
+                // a managed policy whose expression names a route-set the IRR does not know (the
+                // members query is answered `D`): its prefix data cannot be obtained
+                let db = small_db();
+                let items = vec![
+                    item("p0", Expr::RouteSet("RS-GONE".into(), Op::None)),
+                    item("p1", Expr::AutNum(64501, Op::None)),
+                ];
+                return mk(Runner::Agent, db, items);
+            }
             if idx == 7 || idx == 11 {
                 // hundreds of policies of one run whose evaluation fails AFTER following filter-set
                 // references (the IRR still serves the filter-sets but answers the as-set query with an
@@ -2655,6 +2665,15 @@ pub fn main(opts: &Opts) {
                                     .collect()
                             })
                             .unwrap_or_default();
+                        // a route-set the IRR does not know: the library swallows the error of the members
+                        // query and the evaluation SUCCEEDS with the empty set (the model mirrors that);
+                        // for the property the prefix data was not obtained all the same
+                        let unknown_rs: Vec<String> = case
+                            .items
+                            .iter()
+                            .filter(|i| matches!(&i.expr, Expr::RouteSet(n, _) if !case.db.route_sets.iter().any(|(m, _)| m == n)))
+                            .map(|i| i.name.clone())
+                            .collect();
                         sink.count(&format!("c03.failing.{}", failing.len().min(4)));
                         let verdict = match (&obs.touched, model.starts_with("done ")) {
                             (_, false) => format!(
@@ -2669,7 +2688,9 @@ pub fn main(opts: &Opts) {
                             (Some(Ok(t)), _) => {
                                 let hit: Vec<&String> =
                                     failing.iter().filter(|n| t.contains(n)).collect();
-                                if hit.is_empty() {
+                                if hit.is_empty() && unknown_rs.iter().any(|n| t.contains(n)) {
+                                    "violation unknown-route-set-empties-policy".to_string()
+                                } else if hit.is_empty() {
                                     if !t.iter().any(|n| n == "stale") {
                                         "violation unmanaged-not-deleted".to_string()
                                     } else {
